@@ -37,7 +37,14 @@ seed_hash_(compute_seed_hash(seed))
 template<typename EN, typename EK, typename CS, typename A>
 template<typename FwdSketch, typename Sketch>
 CS theta_set_difference_base<EN, EK, CS, A>::compute(FwdSketch&& a, const Sketch& b, bool ordered) const {
-  if (a.is_empty() || (a.get_num_retained() > 0 && b.is_empty())) return CS(a, ordered);
+  if (a.is_empty() || (a.get_num_retained() > 0 && b.is_empty())) {
+    // the result is A itself, but it must live on this object's allocator instance, not on A's
+    std::vector<EN, A> entries(allocator_);
+    entries.reserve(a.get_num_retained());
+    std::copy(forward_begin(std::forward<FwdSketch>(a)), forward_end(std::forward<FwdSketch>(a)), std::back_inserter(entries));
+    if (ordered && !a.is_ordered()) std::sort(entries.begin(), entries.end(), comparator());
+    return CS(a.is_empty(), a.is_ordered() || ordered, a.get_seed_hash(), a.get_theta64(), std::move(entries));
+  }
   if (a.get_seed_hash() != seed_hash_) throw std::invalid_argument("A seed hash mismatch");
   if (b.get_seed_hash() != seed_hash_) throw std::invalid_argument("B seed hash mismatch");
 
